@@ -342,7 +342,11 @@ impl RejectedPrograms {
         let stride = if tier == Tier::Thorough { 8 } else { 40 };
         let mut texts = coverage_rejections();
         let mut k = 0usize;
-        for p in crate::poly::universe(tier) {
+        // thorough: the universe is several times larger; keep the number of fresh processes bounded
+        // (every program-th program, then every 8th rejected mutant)
+        let uni = crate::poly::universe(tier);
+        let every = if tier == Tier::Thorough { (uni.len() / 12_000).max(1) } else { 1 };
+        for p in uni.into_iter().step_by(every) {
             for (_, m) in crate::poly::mutants(&p) {
                 if crate::poly::synth_c(&crate::poly::Scope::default(), &m).is_err() {
                     if k % stride == 0 {
